@@ -420,9 +420,12 @@ impl<'s> Tokenizer<'s> {
     fn syntax_error(&mut self, msg: &'static str) -> Error {
         let mut span = self.span(self.loc());
         if span.start_col == span.end_col {
+            // widen the span to the whole offending character so that the
+            // reported range ends on a character boundary.
+            let width = self.rest().chars().next().map_or(1, |c| c.len_utf8());
             // columns saturate at u16::MAX, see `advance`
             span.end_col = span.end_col.saturating_add(1);
-            span.end_offset = span.end_offset.saturating_add(1);
+            span.end_offset = span.end_offset.saturating_add(width as u32);
         }
         let mut err = Error::new(ErrorKind::SyntaxError, msg);
         err.set_filename_and_span(self.filename, span);
